@@ -67,7 +67,9 @@ def run_cases(fn, cases, warm_cases=(), procs=None, chunk=None, stall=240, group
     if n == 0:
         return []
     procs = procs or min(16, os.cpu_count() or 1)
-    warm_cases = list(warm_cases)
+    # warm-up runs in the parent, which must stay thread-free: no multi-threaded dispatch (R: rows per
+    # thread scaled down) and no chunk-wise factorization in threads (T: threshold scaled down)
+    warm_cases = [c for c in warm_cases if not (isinstance(c, dict) and (c.get("R") or c.get("T")))]
     if warm_cases:
         # canary: the warm-up runs library code in *this* process; try it in a forked child first so that a crash
         # in nopython code (e.g. an out-of-bounds write) is an outcome of those cases, not the death of the check
@@ -94,7 +96,7 @@ def run_cases(fn, cases, warm_cases=(), procs=None, chunk=None, stall=240, group
         sched.reset_pool()          # pool threads started by warm-up calls are joined here
     except Exception:
         pass
-    ntasks = 0
+    ntasks, comms = 0, []
     for t in os.listdir("/proc/self/task"):
         try:
             comm = open(f"/proc/self/task/{t}/comm").read().strip()
@@ -103,11 +105,12 @@ def run_cases(fn, cases, warm_cases=(), procs=None, chunk=None, stall=240, group
         # allocator / polars housekeeping threads exist from import time and are harmless
         if not (comm.startswith("jemalloc") or comm.startswith("polars") or comm.startswith("rayon")):
             ntasks += 1
+            comms.append(comm)
     if ntasks > 1 and not _ALLOW_THREADS:
         import threading
         names = [t.name for t in threading.enumerate()]
         raise RunnerError(f"parent process has {ntasks} OS threads before fork(): warm-up cases must be thread-free "
-                          f"(python threads: {names})")
+                          f"(python threads: {names}; OS threads: {comms})")
     results = [None] * n
     if group is not None:
         idx_jobs = _grouped_jobs(cases, group, procs)
